@@ -70,7 +70,7 @@ CHECKS = {
         "state at a time (this contains vmap(rollout) = rollout(vmap) with exchanged axes); perturbing one batch member must leave the others "
         "bit-identical. Every float-typed constructor parameter of every class (incl. dt, domain_extent, tuple entries) is batched with "
         "eqx.filter_vmap and traced under filter_jit and compared with steppers built one at a time; wrapped steppers (Repeated/Forced) are batched "
-        "both under filter_vmap and by stacking the leaves of eagerly built wrappers.",
+        "both under filter_vmap and by stacking the leaves of eagerly built wrappers. Histories of construction contexts {eager, filter_jit, filter_vmap, lax.scan body} are executed in fresh interpreters (all sequences of length <= 2, thorough 3): the numbers must not depend on the context in which a class was first used in the process.",
         "Trusted: the reference interpreter (Python loops over the real stepper). Tolerance 1e-10 relative for XLA re-association.",
         "DESIGN.md §4 C06",
     ),
@@ -91,7 +91,7 @@ CHECKS = {
         "translations of smooth and white-noise-like states, to ALL axis permutations (with channel permutation for vector fields, signed for the "
         "vorticity pseudo-scalar) and to the 1D state embedded along EVERY axis, and compared with the transformed result / the 1D stepper. The group "
         "is enumerated completely; the state lattice is bounded because a full nonlinear step is a high-degree polynomial - the all-states claim "
-        "rests on C03 (term-level) + C02 (scheme) compositionally.",
+        "rests on C03 (term-level) + C02 (scheme) compositionally. All translations of the white-noise-like state are also run through RepeatedStepper(stepper, 2).",
         "Trusted: numpy roll/transpose as the group action. Carve-outs in evidence.assumptions (Kolmogorov forcing, pseudo-scalar, a0 summed over axes).",
         "DESIGN.md §4 C08",
     ),
@@ -132,7 +132,7 @@ CHECKS = {
         "order 1-4, dt) of a lattice (full product in thorough, deterministically thinned in quick) and stepped 1..4 times; every visited state is "
         "compared with the laminar solution f(e^{sigma t}-1)/sigma of the documented equation and decomposed (own FFT) into channel, direction, "
         "wavenumber, amplitude and phase, each with its own signature. ETDRK integrates the constant forcing exactly, so equality is to rounding. "
-        "ForcedStepper is compared with base(u+dt f) for 8 base steppers x states x forcings x 3 entry points.",
+        "ForcedStepper is compared with base(u+dt f) for 8 base steppers x states x forcings x 3 entry points. ForcedStepper around RepeatedStepper and around nested RepeatedSteppers is compared with the naive loop on u + T*f.",
         "Trusted: the closed-form laminar solution. Runs whose accumulated shear*time exceeds 4 are skipped as ill-conditioned (inviscid shear amplifies rounding noise).",
         "DESIGN.md §4 C12",
     ),
@@ -208,7 +208,7 @@ CHECKS = {
         "that the step does not lose double precision in its transforms (cross-check with numpy float64 FFTs) and that every precomputed array leaf of the "
         "stepper carries the session precision. A wide N scan requires all discrete decisions (wavenumber layout, dealiasing / low-pass / oddball masks, "
         "scaling classes) to be identical in both sessions. A third session imports the library in single precision and enables x64 afterwards; its "
-        "results must equal those of the x64 session (nothing frozen at import time).",
+        "results must equal those of the x64 session (nothing frozen at import time). The late-x64 session first uses the same configuration in single precision (history: f32 use, enable x64, audited run), so per-resolution caches filled in single precision are caught.",
         "Trusted: numpy FFT for the x64 cross-check. For |z| > 1e3 only finiteness/dtype are claimed (single-precision rounding of z itself changes the phase). "
         "Double-precision fidelity of step_fourier is decided by C02.",
         "DESIGN.md §4 C19",
